@@ -1,6 +1,7 @@
 """C07 — Richardson extrapolation removes exactly the modelled error terms."""
 import cmath
 import json
+import os
 import math
 from fractions import Fraction
 
@@ -305,9 +306,14 @@ def run(ctx):
             for t in range(new.shape[0]):
                 mag = float(np.max(np.abs(w)) * np.sum(np.abs(seq[t:t + len(w), c])))
                 # the float sequence carries the rounding of its own evaluation: eps * (|L| + sum|a h^k|)
-                bound = C_ROUND * EPS * (cond + 1) * max(mag, 1e-300)
+                # measured on the unchanged tree (317 000 outputs, cond up to 1e12): |out - L| stays below 100 eps * mag whatever the condition
+                # number is — the first row of the pseudo-inverse of this graded matrix is far more accurate than cond suggests — so the
+                # conditioning factor is capped at 50 (x C_ROUND = 12 800 eps * mag, 150 x the worst value seen)
+                bound = C_ROUND * EPS * min(cond + 1, 50.0) * max(mag, 1e-300)
                 d = abs(new[t, c] - complex(Ls[c]) if cplx else new[t, c] - float(Ls[c]))
                 worst = max(worst, d / bound)
+                if os.environ.get('C07_LOG'):
+                    open(os.environ['C07_LOG'], 'a').write('%r %r\n' % (float(cond), float(d / (EPS * max(mag, 1e-300)))))
                 if d > bound:
                     ctx.violation('modelled error terms are not removed', column=c, slot=t, got=str(new[t, c]),
                                   error=float(d), bound=bound, cond=float(cond), **rep)
